@@ -50,26 +50,65 @@ selfcheck_result = {}
 
 
 def n_for(tier):
-    return 4 if tier == "quick" else 5
+    return 4 if tier == "quick" else 7
 
 
 def depth_for(tier):
-    return 2 if tier == "quick" else 3
+    return 2 if tier == "quick" else 4
+
+
+# thorough only: one more length over the version alphabet alone, one more depth over a reduced value list
+VERSION_SYMBOLS = [0, 1, 2, 3, 4, 5, 6, 7]         # indexes into SYMBOLS: 0 1 a . + ~ - :
+DEEP_LEN = 8
+DEEP_VALUES = [None, "1", "a-b", "x:y"]
+DEEP_DEPTH = 5
+PREFIX3_FROM = 7                                    # acceptance units of this length and longer have 3-symbol prefixes
+NUM_CHUNK = 128
+RULE += ("; the thorough tier (n = %d, depth %d) adds the strings of length %d over the %d version-alphabet symbols and the "
+         "histories of depth %d over %d attributes x %d values (bounds: acceptance.longer, assignments.deeper)"
+         % (n_for("thorough"), depth_for("thorough"), DEEP_LEN, len(VERSION_SYMBOLS), DEEP_DEPTH, len(ATTRS), len(DEEP_VALUES)))
+
+
+def digit_runs(tier):
+    """versyntax.digit_runs(tier); thorough: plus 2^k-1, 2^k, 2^k+1 for EVERY k in 7..256, 10^k-1, 10^k for every k in
+    4..309 and runs of 2000, 4000 and 4101 digits (canonical order: the basic list first, then the added runs by
+    length and value)"""
+    runs = list(versyntax.digit_runs(tier))
+    if tier == "quick":
+        return runs
+    vals = set()
+    for k in range(7, 257):
+        vals.update((2 ** k - 1, 2 ** k, 2 ** k + 1))
+    for k in range(4, 310):
+        vals.update((10 ** k - 1, 10 ** k))
+    have = set(runs)
+    more = sorted((str(v) for v in vals if str(v) not in have), key=lambda r: (len(r), r))
+    more += ["1234567890" * 200, "9" * 4000, "1" + "0" * 4100]
+    return runs + more
 
 
 def bounds(tier):
-    return {"acceptance": {"alphabet": SYMBOLS, "max_length": n_for(tier)},
-            "assignments": {"starts": STARTS, "attributes": ATTRS, "values": VALUES, "depth": depth_for(tier)},
+    acc = {"alphabet": SYMBOLS, "max_length": n_for(tier)}
+    asg = {"starts": STARTS, "attributes": ATTRS, "values": VALUES, "depth": depth_for(tier)}
+    if tier != "quick":
+        acc["longer"] = "every string of length %d over the %d version-alphabet symbols %r" % (
+            DEEP_LEN, len(VERSION_SYMBOLS), [SYMBOLS[i] for i in VERSION_SYMBOLS])
+        asg["deeper"] = "every history of depth %d over the %d attributes x the values %r" % (DEEP_DEPTH, len(ATTRS), DEEP_VALUES)
+    return {"acceptance": acc,
+            "assignments": asg,
             "numeric_boundaries": {
-                "digit_runs": versyntax.digit_runs(tier) if tier == "quick" else
-                "%d runs: 2^k-1, 2^k, 2^k+1 (k = 7..256), 10^k-1, 10^k (k = 4..309), 40-, 100-, 300- and 1000-digit runs, long "
-                "runs of small value" % len(versyntax.digit_runs(tier)),
+                "digit_runs": digit_runs(tier) if tier == "quick" else
+                "%d runs: 2^k-1, 2^k, 2^k+1 for every k = 7..256, 10^k-1, 10^k for every k = 4..309, 40-, 100-, 300-, 1000-, "
+                "2000-, 4000- and 4101-digit runs, long runs of small value (the basic list of %d runs: selected k only)"
+                % (len(digit_runs(tier)), len(versyntax.digit_runs(tier))),
                 "leading_zeros": [0, 1, 10],
                 "templates": [t for _p, t in versyntax.DIGIT_RUN_TEMPLATES],
                 "assignment_starts": NUM_STARTS, "assignment_attributes": NUM_ATTRS,
                 "assignment_values": "every run and zero-padded run as str, every bare run also as int",
-                "assignment_depth": "1 over all values; 2 = (attribute, bare run as str) followed by one of those or by "
-                                    "any of the %d ordinary steps" % (len(ATTRS) * len(VALUES))}}
+                "assignment_depth": "1 over all values; 2 = (attribute, bare run as str) followed by %s or by "
+                                    "any of the %d ordinary steps" % (
+                                        "one of those" if tier == "quick" else
+                                        "(attribute, bare run of the basic list as str)", len(ATTRS) * len(VALUES))}}
 
 
 def assumptions():
@@ -130,7 +169,14 @@ def _units(tier, seed):
     k = len(SYMBOLS)
     out = [{"k": "accept", "len": 2, "prefix": None}]                 # all strings of length 0..2
     for length in range(3, n_for(tier) + 1):
-        out += [{"k": "accept", "len": length, "prefix": [i, j]} for i in range(k) for j in range(k)]
+        if length < PREFIX3_FROM:
+            out += [{"k": "accept", "len": length, "prefix": [i, j]} for i in range(k) for j in range(k)]
+        else:
+            out += [{"k": "accept", "len": length, "prefix": [i, j, l]} for i in range(k) for j in range(k) for l in range(k)]
+    if tier != "quick":
+        # one more length over the version alphabet alone (shorter strings over it are part of the walk above)
+        vs = VERSION_SYMBOLS
+        out += [{"k": "accept", "len": DEEP_LEN, "prefix": [i, j, l], "alphabet": vs} for i in vs for j in vs for l in vs]
     # one foreign character at a time: every code point of the sweep list inserted at / substituted in every position
     # of a few valid templates (catches character-class slips outside the 13-symbol alphabet, e.g. a `+-:` range)
     cps = sweep_code_points()
@@ -139,10 +185,19 @@ def _units(tier, seed):
     out += [{"k": "assign", "len": 1, "start": si, "first": None} for si in range(len(STARTS))]
     for length in range(2, depth_for(tier) + 1):
         out += [{"k": "assign", "len": length, "start": si, "first": oi} for si in range(len(STARTS)) for oi in range(nops)]
+    if tier != "quick":
+        # one more depth over the reduced value list (shorter histories over it are part of the units above)
+        out += [{"k": "assign", "len": DEEP_DEPTH, "start": si, "first": oi, "values": DEEP_VALUES}
+                for si in range(len(STARTS)) for oi in range(len(ATTRS) * len(DEEP_VALUES))]
     out += [{"k": "numeric", "template": i} for i in range(len(versyntax.DIGIT_RUN_TEMPLATES))]
     out += [{"k": "numeric-assign", "len": 1, "start": si, "attr": None} for si in range(len(NUM_STARTS))]
-    out += [{"k": "numeric-assign", "len": 2, "start": si, "attr": ai} for si in range(len(NUM_STARTS))
-            for ai in range(len(NUM_ATTRS))]
+    if tier == "quick":
+        out += [{"k": "numeric-assign", "len": 2, "start": si, "attr": ai} for si in range(len(NUM_STARTS))
+                for ai in range(len(NUM_ATTRS))]
+    else:
+        nruns = len(digit_runs(tier))
+        out += [{"k": "numeric-assign", "len": 2, "start": si, "attr": ai, "lo": lo, "hi": min(lo + NUM_CHUNK, nruns)}
+                for si in range(len(NUM_STARTS)) for ai in range(len(NUM_ATTRS)) for lo in range(0, nruns, NUM_CHUNK)]
     return out
 
 
@@ -187,14 +242,16 @@ def unit_sweep(part, u, seed):
 
 def unit_cost(u, tier):
     if u["k"] == "accept":
-        return len(SYMBOLS) ** max(0, u["len"] - 2)
+        return len(u.get("alphabet", SYMBOLS)) ** max(0, u["len"] - len(u["prefix"] or [0, 0]))
     if u["k"] == "sweep":
         return 64 * 100
     if u["k"] == "numeric":
         return 60
     if u["k"] == "numeric-assign":
+        if "lo" in u:
+            return 3 * (u["hi"] - u["lo"]) * 312
         return 3 * (400 if u["len"] == 1 else 2000)
-    return 3 * (len(ATTRS) * len(VALUES)) ** max(0, u["len"] - 1)
+    return 3 * (len(ATTRS) * len(u.get("values", VALUES))) ** max(0, u["len"] - 1)
 
 
 # ------------------------------------------------------------------------------------------------
@@ -356,7 +413,7 @@ def unit_numeric(part, u, tier, seed):
     pos, template = versyntax.DIGIT_RUN_TEMPLATES[u["template"]]
     template = tr(template, seed)
     part.max_depth = 1
-    for run in versyntax.digit_runs(tier):
+    for run in digit_runs(tier):
         for z, padded in enumerate(versyntax.zero_padded(run)):
             s = versyntax.digit_run_string(template, padded)
             assert versyntax.valid(s) is True, s
@@ -375,9 +432,9 @@ def unit_numeric(part, u, tier, seed):
     return part
 
 
-def numeric_values(tier, bare_only=False):
+def numeric_values(tier, bare_only=False, basic=False):
     out = []
-    for run in versyntax.digit_runs(tier):
+    for run in (versyntax.digit_runs(tier) if basic else digit_runs(tier)):
         out.append(run)
         if not bare_only:
             out += versyntax.zero_padded(run)[1:]
@@ -393,7 +450,10 @@ def unit_numeric_assign(part, u, tier, seed):
         hists = [[(a, x)] for a in NUM_ATTRS for x in numeric_values(tier)]
     else:
         firsts = [(NUM_ATTRS[u["attr"]], x) for x in numeric_values(tier, bare_only=True)]
-        seconds = ([(a, x) for a in NUM_ATTRS for x in numeric_values(tier, bare_only=True)] +
+        if "lo" in u:
+            firsts = firsts[u["lo"]:u["hi"]]       # thorough: the first steps are spread over several units
+        # quick: the second run ranges over the same list as the first; thorough: over the basic list
+        seconds = ([(a, x) for a in NUM_ATTRS for x in numeric_values(tier, bare_only=True, basic=True)] +
                    [(a, tr(x, seed)) for a in ATTRS for x in VALUES])
         hists = [[f, g] for f in firsts for g in seconds]
     for h in hists:
@@ -422,7 +482,8 @@ def unit_accept(part, u, seed):
         todo = [t for n in range(0, u["len"] + 1) for t in itertools.product(syms, repeat=n)]
     else:
         pre = tuple(syms[i] for i in u["prefix"])
-        todo = [pre + t for t in itertools.product(syms, repeat=u["len"] - 2)]
+        tail = [syms[i] for i in u["alphabet"]] if "alphabet" in u else syms
+        todo = [pre + t for t in itertools.product(tail, repeat=u["len"] - len(pre))]
     for t in todo:
         s = "".join(t)
         bad, cls, nontrivial = run_string(s)
@@ -441,7 +502,7 @@ def unit_accept(part, u, seed):
 
 def unit_assign(part, u, seed):
     start = tr(STARTS[u["start"]], seed)
-    allops = [(a, tr(x, seed)) for a in ATTRS for x in VALUES]
+    allops = [(a, tr(x, seed)) for a in ATTRS for x in u.get("values", VALUES)]
     length = u["len"]
     if u["first"] is None:
         hists = [[op] for op in allops]
